@@ -413,6 +413,21 @@ def dtype_truth(t, is_subject):
             if k in npkb.ISSUBDTYPE:
                 return set(npkb.ISSUBDTYPE[k])
         return None
+    if t.k == "cmp" and t.a[0] in ("==", "!=", "in", "not in"):
+        # <subject>.dtype.kind == "f" / in "iub" / in ("i", "u")
+        l, r = t.a[1], t.a[2]
+        if t.a[0] in ("==", "!=") and r.k == "attr" and r.a[1] == "kind":
+            l, r = r, l
+        if l.k == "attr" and l.a[1] == "kind" and is_subject(l.a[0]):
+            letters = None
+            if r.k == "const" and isinstance(r.a[0], str):
+                letters = set(r.a[0]) if t.a[0] in ("in", "not in") else {r.a[0]}
+            elif r.k in ("tuple", "list", "set") and all(x.k == "const" and isinstance(x.a[0], str) for x in r.a[0]):
+                letters = {x.a[0] for x in r.a[0]}
+            if letters is not None:
+                km = {"b": "bool", "i": "signed", "u": "unsigned", "f": "floating"}
+                s = {km[c] for c in letters if c in km}
+                return s if t.a[0] in ("==", "in") else ALL - s
     if t.k == "cmp" and t.a[0] in ("==", "!=", "is", "is not"):
         l, r = t.a[1], t.a[2]
         if is_subject(r):
@@ -440,9 +455,10 @@ def _dtype_name(t):
     return None
 
 
-def reachable_under(fa, kind, is_subject, start=None, avoid=()):
+def reachable_under(fa, kind, is_subject, start=None, avoid=(), assume=None):
     """CFG nodes reachable when the subject's dtype is of `kind`: dtype tests are followed only along their
-    feasible edge; every other test along both"""
+    feasible edge; every other test along both.  assume(term) -> True / False / None fixes the outcome of
+    further atoms (and / or / not over dtype tests and assumed atoms are evaluated three-valued)"""
     cfg = fa.cfg
     seen = set()
     av = set(n.id for n in avoid)
@@ -454,6 +470,9 @@ def reachable_under(fa, kind, is_subject, start=None, avoid=()):
         seen.add(n.id)
         if n.kind == "test":
             tr = dtype_truth(fa.term(n.ast, n), is_subject)
+            if tr is None and assume is not None:
+                v = _truth3(fa.term(n.ast, n), kind, is_subject, assume)
+                tr = None if v is None else ({kind} if v else set())
             if tr is not None:
                 want = kind in tr
                 for e in n.succ:
@@ -464,6 +483,24 @@ def reachable_under(fa, kind, is_subject, start=None, avoid=()):
                 continue
         stack.extend(n.succ)
     return seen
+
+
+def _truth3(t, kind, is_subject, assume):
+    tr = dtype_truth(t, is_subject)
+    if tr is not None:
+        return kind in tr
+    v = assume(t)
+    if v is not None:
+        return v
+    if t.k == "un" and t.a[0] == "not":
+        v = _truth3(t.a[1], kind, is_subject, assume)
+        return None if v is None else not v
+    if t.k == "bool":
+        vs = [_truth3(x, kind, is_subject, assume) for x in t.a[1]]
+        if t.a[0] == "and":
+            return False if any(v is False for v in vs) else (True if all(v is True for v in vs) else None)
+        return True if any(v is True for v in vs) else (False if all(v is False for v in vs) else None)
+    return None
 
 
 def subject_dtype_of(*names):
